@@ -21,7 +21,9 @@ RULE = (
     "another object's bytes (rename, new inode), empty} and intact controls {none, touch, chmod-only} x state "
     "entry {StateNoop, wiped, warm (re-hashed after the change), stale (row from before the change)} x store "
     "class {Local, Base} x query {check, oids_exist, checkout without and with a state, add(verify=True) with an honest and a corrupt "
-    "source}; plus seeded random histories (6-14 steps) over add/check/oids_exist/checkout/tamper (also "
+    "source}; the re-checkout product: checkout of the object (file target without/with a state, or a directory "
+    "target listing it) while intact, then the change, then the same checkout again on the same store directory - "
+    "with the same odb object and with a re-created one; plus seeded random histories (6-14 steps) over add/check/oids_exist/checkout/tamper (also "
     "keeping 0o444, other modes, mtime-restoring)/plant under a wrong name/delete/hash/foreign state row/"
     "wipe, ids with and without the .dir suffix. A case is non-trivial when a query met a mismatching "
     "object or an object with a state row."
@@ -389,6 +391,50 @@ def run_case(ctx, case):
                     tags.add("checkout:intact")
                     if code != 0 or got != p["bytes"]:
                         fail("C07:intact-not-materialised", f"checkout of intact object {o}: code {code}")
+            elif kind == "checkoutdir":
+                from dvc_data.hashfile.meta import Meta
+                from dvc_data.hashfile.tree import Tree
+
+                ents = [(nm, oid_of(r)) for nm, r in op[1]]
+                tree = Tree()
+                for nm, o in ents:
+                    tree.add((nm,), Meta(), HashInfo("md5", o))
+                    R.known.add(o)
+                tree.digest()
+                d = tree.hash_info.value
+                R.known.add(d)
+                pre = R.snap()
+                R.wsn += 1
+                dest = os.path.join(R.ws, f"dir{R.wsn}")
+                try:
+                    checkout(dest, localfs, tree, R.odb, state=None, quiet=True)
+                    code = 0
+                except Exception as exc:  # noqa: BLE001
+                    code = exc_code(exc)
+                post = R.snap()
+                got = impl.walk_files(dest) if os.path.isdir(dest) else {}
+                ops_t.append(ctor("OCheckoutDir", cbytes(d),
+                                  clist(["(%s, %s)" % (cbytes(nm), cbytes(o)) for nm, o in ents])))
+                outs.append(vL([vN(6), vN(code), vL([vL([vB(nm), vB(b)]) for nm, b in sorted(got.items())])]))
+                judge_unharmed(pre, post, "checkout")
+                for nm, o in ents:
+                    p = pre[o]
+                    if p["exists"] and (not p["intact"] or p["row"]):
+                        nontrivial = True
+                    if tampered(p):
+                        tags.add("checkoutdir:tampered")
+                        if code != 5 or nm in got:
+                            fail("C07:corrupt-materialised", f"directory checkout with mismatching object {o} at {nm}: code {code}, workspace file {'present' if nm in got else 'absent'}")
+                        if post[o]["exists"]:
+                            fail("C07:corrupt-not-deleted:checkout", f"directory checkout left mismatching object {o} in the cache")
+                    elif p["exists"] and p["intact"] and p["honest"]:
+                        tags.add("checkoutdir:intact")
+                        if got.get(nm) != p["bytes"]:
+                            fail("C07:intact-not-materialised", f"directory checkout did not materialise intact object {o} at {nm}")
+            elif kind == "reopen":
+                # a new odb object on the same store directory (same state): no model step
+                R.odb = impl.make_odb(R.cls, R.store, state=R.state, verify=case.get("verify", False))
+                tags.add("env:reopen")
             elif kind in ("tamper", "plant"):
                 if kind == "tamper":
                     _, ref, pattern, mode, other = op
@@ -497,7 +543,7 @@ os.umask(UMASK)
 T, B, O = [0, ""], [1, ""], [3, ""]     # target, bystander, third object
 
 
-def product_cases():
+def product_cases(full=True):
     out = []
     changes = [("append", 0o644), ("truncate", 0o644), ("rewrite", 0o644), ("replace", 0o644), ("empty", 0o644),
                ("none", None), ("touch", None), ("chmod", 0o644)]
@@ -524,6 +570,34 @@ def product_cases():
                         ops += [["add", True, [[T, 0], [O, 4]]], ["check", T]]
                     out.append({"cls": cls, "state": entry != "noop", "verify": False, "ops": ops,
                                 "tag": f"{pattern}/{entry}/{query}"})
+    # checkout while intact, then the change, then checkout again: same oid, same store directory,
+    # with the same odb object and with a re-created one; file targets and directory targets
+    DIR = [["t", T], ["b", B]]
+    for cls in ("local", "base"):
+        for pattern, mode in changes:
+            for entry in (("noop", "wiped", "warm", "stale") if full else ("noop", "warm", "stale")):
+                for target in ("file", "filest", "dir"):
+                    for reopen in (False, True):
+                        if not full and target == "filest" and not reopen:
+                            continue
+                        first = {"file": ["checkout", T], "filest": ["checkout", T, True],
+                                 "dir": ["checkoutdir", DIR]}[target]
+                        ops = [["add", None, [[T, 0], [B, 1]]], first]
+                        if pattern != "none":
+                            ops.append(["tamper", T, pattern, mode, 3])
+                        if entry == "wiped":
+                            ops.append(["dropstate"])
+                        elif entry == "warm":
+                            ops.append(["hash", T])
+                        if reopen:
+                            ops.append(["reopen"])
+                        ops.append(first)
+                        if target == "dir":
+                            ops.append(["checkout", T])
+                        else:
+                            ops.append(["checkoutdir", DIR])
+                        out.append({"cls": cls, "state": entry != "noop", "verify": False, "ops": ops,
+                                    "tag": f"{pattern}/{entry}/re-{target}{'/reopen' if reopen else ''}"})
     return out
 
 
@@ -550,8 +624,13 @@ def random_case(rng):
             ops.append(["check", ref])
         elif r < 0.42:
             ops.append(["exist", [rng.choice(refs + [[-1, ""]]) for _ in range(rng.randint(1, 4))]])
-        elif r < 0.52:
+        elif r < 0.47:
             ops.append(["checkout", [ref[0], ""], rng.random() < 0.5])
+        elif r < 0.50:
+            ks = rng.sample(range(5), rng.randint(1, 3))
+            ops.append(["checkoutdir", [[f"f{k}", [k, ""]] for k in ks]])
+        elif r < 0.52:
+            ops.append(["reopen"])
         elif r < 0.74:
             pat = rng.choice(["append", "truncate", "rewrite", "replace", "empty", "touch", "chmod", "rewrite", "restore"])
             mode = rng.choice([0o644, 0o644, 0o644, None, 0o444, 0o600, 0o664, 0o400])
@@ -569,6 +648,22 @@ def random_case(rng):
                         rng.choice([ref, ref, [rng.randrange(5), ""]])])
         else:
             ops.append(["dropstate"])
+    # the motif "seen intact by a checkout, changed, checked out again" on one store directory
+    for _ in range(rng.randint(1, 2)):
+        k = rng.randrange(5)
+        tgt = [k, ""]
+        dirents = [[f"f{j}", [j, ""]] for j in sorted({k, rng.randrange(5)})]
+        look = lambda: (["checkoutdir", dirents] if rng.random() < 0.4 else ["checkout", tgt, rng.random() < 0.5])  # noqa: E731
+        motif = [["add", rng.choice([None, True]), [[tgt, k]]], look(),
+                 ["tamper", tgt, rng.choice(["append", "truncate", "rewrite", "replace", "empty", "touch", "chmod"]),
+                  rng.choice([0o644, 0o644, 0o600, 0o444]), rng.randrange(len(POOL))]]
+        if rng.random() < 0.4:
+            motif.append(["reopen"])
+        if rng.random() < 0.3:
+            motif.append(rng.choice([["hash", tgt], ["dropstate"]]))
+        motif.append(look())
+        at = rng.randint(1, len(ops))
+        ops[at:at] = motif
     return {"cls": cls, "state": rng.random() < 0.85, "verify": rng.random() < 0.3, "ops": ops, "tag": "random"}
 
 
@@ -586,7 +681,7 @@ def load_corpus():
 
 
 def run(ctx):
-    cases = load_corpus() + product_cases()
+    cases = load_corpus() + product_cases(full=ctx.tier != "quick" or bool(ctx.changed_anchors))
     for _ in range(ctx.n(120, 2500)):
         cases.append(random_case(ctx.rng))
     items = []
@@ -609,7 +704,7 @@ def run(ctx):
     ctx.obligation("oracle:integrity", not any(v.kind == "oracle" for v in ctx.violations),
                    f"{len(items)} histories on the real store judged step by step against independent ground truth")
     need = {"check:tampered", "check:intact", "exist:tampered", "exist:intact", "checkout:tampered",
-            "checkout:intact", "add:verify"}
+            "checkout:intact", "checkoutdir:tampered", "checkoutdir:intact", "env:reopen", "add:verify"}
     ctx.obligation("generator:coverage", need <= seen_tags, "missing: " + ", ".join(sorted(need - seen_tags)))
     if not need <= seen_tags:
         ctx.broken("correspondence", "generator:coverage", "the generators no longer reach " + ", ".join(sorted(need - seen_tags)))
